@@ -103,7 +103,16 @@ pub fn gen_acks_server(tapes: &[Vec<u32>]) -> RawCase {
                 let mut d = [0u8; 8];
                 d.copy_from_slice(&b);
                 d[0] = 0x11; // never collides with barrier payloads (0xb5…)
-                script.push(fr(Frame::Ping { ack: false, data: d }));
+                match t.weighted(&[6, 2, 2]) {
+                    0 => script.push(fr(Frame::Ping { ack: false, data: d })),
+                    // undefined flag bits must be ignored: still a PING that is answered once
+                    1 => script.push(PStep::Frame { f: Frame::Ping { ack: false, data: d }, extra_flags: *t.pick(&[0x02u8, 0x08, 0x82]), r_bit: false }),
+                    // an acknowledgement nobody asked for (with or without undefined flag bits): never answered
+                    _ => {
+                        d[0] = 0x12;
+                        script.push(PStep::Frame { f: Frame::Ping { ack: true, data: d }, extra_flags: *t.pick(&[0x00u8, 0x02, 0x08, 0x82]), r_bit: false });
+                    }
+                }
             }
             _ => {
                 let id = next_id;
